@@ -36,6 +36,9 @@ func (poly *Poly) Empty() bool {
 }
 
 func (poly *Poly) Valid() bool {
+	if poly == nil || poly.Exterior == nil {
+		return true
+	}
 	if !poly.Exterior.Valid() {
 		return false
 	}
